@@ -1307,9 +1307,15 @@ class CCodeGenerator:
             # Handle struct assignment special case:
             if expr.op == "=" and expr.a.typ.is_struct:
                 lhs = self.gen_expr(expr.a, rvalue=False)
-                rhs = self.gen_expr(expr.b, rvalue=False)
-                amount = self.sizeof(expr.a.typ)
-                self.gen_copy_struct(lhs, rhs, amount)
+                if expr.b.lvalue:
+                    rhs = self.gen_expr(expr.b, rvalue=False)
+                    amount = self.sizeof(expr.a.typ)
+                    self.gen_copy_struct(lhs, rhs, amount)
+                else:
+                    # The right hand side is a value, not an object:
+                    # s = (x, t);  s = c ? t : u;
+                    rhs = self.gen_expr(expr.b, rvalue=True)
+                    self.emit(ir.Store(rhs, lhs))
                 value = None
             else:
                 lhs = self.gen_expr(expr.a, rvalue=False)
